@@ -22,12 +22,18 @@ OBLIGATIONS = [
      "statement": "HttpClient: an https request never runs over a plain session"},
     {"id": "C07_T1_httpserver", "theorem": "Iora.C07.T1_httpserver_never_plain", "kind": "proved",
      "statement": "HttpServer: after enableTls the listener never serves clear text"},
+    {"id": "C07_T1_url", "theorem": "Iora.C07.T1_url_scheme_never_plain", "kind": "proved",
+     "statement": "forall scheme spelling equal to https up to case: the URL is rejected or requested with TLS, never plain; accepted without port => port 443"},
+    {"id": "C07_T9_cache", "theorem": "Iora.C07.T9_cache_never_carries_https_in_clear", "kind": "proved",
+     "statement": "forall request sequences to one host:port (http/https mix, keep/drop): every https request rides a session opened with TlsMode::Client"},
+    {"id": "C07_T2_effective", "theorem": "Iora.C07.T2_effective_min", "kind": "proved",
+     "statement": "forall minVersion : Int (incl. 0x0305, DTLS numbers): the context HAS a minimum in [TLS1.2, TLS1.3], >= minVersion when that is a known TLS version"},
     {"id": "C07_T2_floor", "theorem": "Iora.C07.T2_floor", "kind": "proved",
      "statement": "forall n : Int, floor n >= TLS1_2 and floor n >= n"},
     {"id": "C07_T2_connect_min", "theorem": "Iora.C07.T2_connect_min", "kind": "proved",
-     "statement": "every client TLS session runs on a context with min_proto = floor(minVersion) >= TLS 1.2"},
+     "statement": "every client TLS session runs on a context whose EFFECTIVE minimum is applyFloorMin(minVersion) >= TLS 1.2"},
     {"id": "C07_T2_listen_min", "theorem": "Iora.C07.T2_listen_min", "kind": "proved",
-     "statement": "every server TLS session runs on a context with min_proto = floor(minVersion) >= TLS 1.2"},
+     "statement": "every server TLS session runs on a context whose EFFECTIVE minimum is applyFloorMin(minVersion) >= TLS 1.2"},
     {"id": "C07_T3_client_verify", "theorem": "Iora.C07.T3_client_verify", "kind": "proved",
      "statement": "clientTls.verifyPeer => SSL_VERIFY_PEER set and the store is the configured CA location or the default paths"},
     {"id": "C07_T3_enabled", "theorem": "Iora.C07.T3_tls_only_if_enabled", "kind": "proved",
@@ -80,12 +86,27 @@ MINS = ["0", "769", "770", "771", "772"]
 
 # ------------------------------------------------------------------ cell constructors
 def cli(api="async", verify=1, trust="right", scert="valid", ceil="13", peer="tls", target="name", minv="0", et=1, batch=0,
-        enabled=1, defmode="client", req="client"):
-    return "cli %s %d %s %s %s %s %s %s %d %d %d %s %s" % (api, verify, trust, scert, ceil, peer, target, minv, et, batch, enabled, defmode, req)
+        enabled=1, defmode="client", req="client", ciphers=None):
+    return "cli %s %d %s %s %s %s %s %s %d %d %d %s %s" % (api, verify, trust, scert, ceil, peer, target, minv, et, batch, enabled, defmode, req) + \
+           (" ciphers=%s" % ciphers if ciphers else "")
 
 
-def srv(verify=0, trust="none", own="valid", ccert="none", ceil="13", peer="tls", minv="0", et=1, batch=0, enabled=1, defmode="server", req="server"):
-    return "srv %d %s %s %s %s %s %s %d %d %d %s %s" % (verify, trust, own, ccert, ceil, peer, minv, et, batch, enabled, defmode, req)
+def srv(verify=0, trust="none", own="valid", ccert="none", ceil="13", peer="tls", minv="0", et=1, batch=0, enabled=1, defmode="server", req="server",
+        greet=0, ciphers=None):
+    return "srv %d %s %s %s %s %s %s %d %d %d %s %s" % (verify, trust, own, ccert, ceil, peer, minv, et, batch, enabled, defmode, req) + \
+           (" greet=1" if greet else "") + (" ciphers=%s" % ciphers if ciphers else "")
+
+
+def hurl(scheme="https", form="ipport", verify=1, peer="dual"):
+    return "hurl %s %s %d %s" % (scheme, form, verify, peer)
+
+
+def hreuse(first, second, verify=0):
+    return "hreuse %s %s %d" % (first, second, verify)
+
+
+SCHEMES = ["https", "HTTPS", "Https", "hTTps", "httpS", "http", "HTTP", "Http"]
+BOGUS_MINS = ["773", "65277", "65279", "100000", "768"]      # 0x0305, DTLS1_2_VERSION, DTLS1_VERSION, nonsense, SSL3_VERSION
 
 
 def http(verify=1, ca="right", sys="empty", scert="valid", url="name", ceil="13", peer="tls"):
@@ -126,6 +147,13 @@ def gen_cases(ctx, rng):
                 out.append(case("cli-min" + tag, cli(api=api, minv=minv, ceil=ceil, et=et, batch=batch)))
         for minv in ("1", "768", "-3"):
             out.append(case("cli-min" + tag, cli(api=api, minv=minv, ceil="11", et=et, batch=batch)))
+        # a minVersion the library does not know (or silently ignores), with and without a cipher string that lowers the security level
+        for minv in BOGUS_MINS:
+            for ceil in ("11", "13"):
+                for ciphers in (None, "seclevel0"):
+                    out.append(case("cli-min-bogus" + tag, cli(api=api, minv=minv, ceil=ceil, et=et, batch=batch, ciphers=ciphers)))
+        for ceil in CEILS:
+            out.append(case("cli-min-bogus" + tag, cli(api=api, ceil=ceil, et=et, batch=batch, ciphers="seclevel0")))
         for trust in ("path", "badfile", "missing"):
             for verify in (0, 1):
                 out.append(case("cli-trustform" + tag, cli(api=api, verify=verify, trust=trust, et=et, batch=batch)))
@@ -154,6 +182,22 @@ def gen_cases(ctx, rng):
                 out.append(case("srv-min" + tag, srv(minv=minv, ceil=ceil, et=et, batch=batch)))
         for minv in ("1", "768", "-3"):
             out.append(case("srv-min" + tag, srv(minv=minv, ceil="11", et=et, batch=batch)))
+        for minv in BOGUS_MINS:
+            for ceil in ("11", "13"):
+                for ciphers in (None, "seclevel0"):
+                    out.append(case("srv-min-bogus" + tag, srv(minv=minv, ceil=ceil, et=et, batch=batch, ciphers=ciphers)))
+        for ceil in CEILS:
+            out.append(case("srv-min-bogus" + tag, srv(ceil=ceil, et=et, batch=batch, ciphers="seclevel0")))
+        # a server that sends first (greeting from onAccept, i.e. before the handshake of the accepted session has run)
+        for peer in ("plainread", "tls", "plain"):
+            for ceil in ("12", "13"):
+                out.append(case("srv-greet" + tag, srv(peer=peer, ceil=ceil, greet=1, et=et, batch=batch)))
+                out.append(case("srv-greet" + tag, srv(verify=1, trust="right", ccert="cvalid", peer=peer, ceil=ceil, greet=1, et=et, batch=batch)))
+            out.append(case("srv-greet" + tag, srv(verify=1, trust="right", ccert="none", peer=peer, greet=1, et=et, batch=batch)))
+        for req in ("none", "server", "client"):
+            for enabled in (0, 1):
+                for defmode in ("none", "server"):
+                    out.append(case("srv-greet" + tag, srv(peer="plainread", enabled=enabled, defmode=defmode, req=req, greet=1, et=et, batch=batch)))
         for trust in ("path", "badfile", "missing"):
             for verify in (0, 1):
                 out.append(case("srv-trustform" + tag, srv(verify=verify, trust=trust, ccert="cvalid", et=et, batch=batch)))
@@ -200,6 +244,20 @@ def gen_cases(ctx, rng):
         rng.shuffle(hc_extra)
         hc_extra = hc_extra[:6]
     cs += [case("http", o) for o in hc_fixed + hc + hc_extra]
+    # ---- HttpClient: URL spellings (scheme case, host form, default port) against a peer that answers plaintext with plaintext
+    for scheme in SCHEMES:
+        for form in ("ipport", "nameport", "noport"):
+            for verify in (0, 1):
+                cs.append(case("url-scheme", hurl(scheme, form, verify)))
+    if not quick:
+        for scheme in ("https", "HTTPS"):
+            for form in ("userinfo", "userat", "dotname", "ip6", "upperhost"):
+                cs.append(case("url-odd", hurl(scheme, form, 1)))
+    # ---- HttpClient: connection cache across schemes (one client, two requests to the same host:port)
+    for first in ("http", "https"):
+        for second in ("http", "https"):
+            for verify in (0, 1):
+                cs.append(case("reuse", hreuse(first, second, verify)))
     # ---- HttpServer
     hs = [hsrv(require=r, ca=ca, own=own, ccert=cc, ceil=ceil) for r in (0, 1) for ca in TRUSTS for own in SCERTS for cc in CCERTS + ["cexpired"]
           for ceil in (("13",) if quick else ("12", "13"))]
@@ -246,6 +304,12 @@ def cell_of(op):
         # the anchor an HttpClient is configured with: its caFile, or - without one - the system store
         eff = t[2] if t[2] in ("right", "wrong") else {"right": "right", "wrong": "wrong"}.get(t[3], "none")
         return dict(kind="http", verify=t[1] == "1", trust=eff, cafile=t[2], sys=t[3], scert=t[4], target=t[5], ceil=t[6], peer=t[7], req="client")
+    if t[0] == "hurl":
+        secure = t[1].lower() == "https"
+        return dict(kind="hurl", scheme=t[1], form=t[2], verify=t[3] == "1", trust="right" if t[3] == "1" else "none", scert="valid",
+                    target="name" if t[2] in ("nameport", "dotname", "upperhost") else "ip", peer=t[4], req="client" if secure else "none")
+    if t[0] == "hreuse":
+        return dict(kind="hreuse", first=t[1], second=t[2], verify=t[3] == "1", req="mixed")
     if t[0] == "hsrv":
         return dict(kind="hsrv", verify=t[1] == "1", trust=t[2], own=t[3], ccert=t[4], ceil=t[5], peer=t[6], req="server")
     return dict(kind=t[0])
@@ -260,6 +324,13 @@ def monitor(op, impl):
         return ["harness: cell did not run: %s" % impl], None
     o = parse_line(impl)
     bad = []
+    if c["kind"] == "hreuse":
+        if o.get("secure_in_clear") == "1":
+            bad.append("no-downgrade: an https request was carried by a cached PLAIN connection to the same host:port (requests %s then %s, %s connection(s))"
+                       % (c["first"], c["second"], o.get("conns")))
+        return bad, None
+    if o.get("plan") == "skip":
+        return [], None
     connected, appdata, clear = o.get("connected") == "1", o.get("appdata") == "1", o.get("cleartext") == "1"
     finding = None
     if c["req"] != "none" and clear:
@@ -269,11 +340,11 @@ def monitor(op, impl):
     if c["req"] != "none" and (connected or appdata):
         if o.get("version") not in ("1.2", "1.3"):
             bad.append("version: session announced at protocol version %s (< TLS 1.2)" % o.get("version"))
-        if o["diag"].get("wirever") not in ("1.2", "1.3"):
+        if "wirever" in o["diag"] and o["diag"].get("wirever") not in ("1.2", "1.3"):
             bad.append("version: ServerHello on the wire announces %s (< TLS 1.2)" % o["diag"].get("wirever"))
     if appdata and not connected:
         bad.append("announce: application data exchanged on a session that was never announced")
-    if c["kind"] in ("cli", "http") and c["req"] == "client" and c["verify"] and (connected or appdata):
+    if c["kind"] in ("cli", "http", "hurl") and c["req"] == "client" and c["verify"] and (connected or appdata):
         f = CERT_FACTS[c["scert"]]
         why = []
         if f["issuer"] != c["trust"]:
@@ -404,8 +475,10 @@ def run(ctx: Ctx):
                 finding_cells.append((op, il, ml))
             if fails:
                 ctx.violation("property", fails[0], {"ops": [op], "observed": [il], "expected_by_model": [ml], "failures": fails, "category": c["cat"]}, found_input=True)
-            elif head(il) != ml:
+            elif head(il) != ml and not (c["cat"] == "url-odd" or il.startswith("plan=skip")):
                 mism.append((c, il, ml))
+            if il.startswith("plan=skip"):
+                ctx.extra["cells_skipped_default_ports_busy"] = ctx.extra.get("cells_skipped_default_ports_busy", 0) + 1
         # a disagreement that no monitor explains may be a timing accident of the real handshake: run those cells once more, alone
         if mism:
             again, _, _ = ctx.run_lines([hb], [c["ops"][0] for c, _, _ in mism], timeout=900, env=env)
@@ -451,14 +524,15 @@ def run(ctx: Ctx):
         "(the exhaustive matrix correspondence checks them against the installed library)",
         "T4 for the HttpClient path at full strength (refuted: F20-http); only the unresolved-name case is proved",
         "the session machine of T7/T8 is tied to driveHandshake/onSession/doSend by translator facts and by the early-send cells, not by a step-by-step lockstep",
-        "an unsupported TlsConfig.minVersion (above TLS 1.3) makes SSL_CTX_set_min_proto_version fail, and its return value is ignored; out of the modelled range",
+        "URL forms other than scheme case / host form / default port (userinfo, IPv6 literal, trailing-dot host) are monitored (thorough tier) but not modelled",
     ]
     ctx.assumptions += [
         "OpenSSL semantics as stated in Handshake.Assumed (client+VERIFY_PEER fails unless chain/validity verify; name checked only after SSL_set1_host; server "
         "VERIFY_PEER without FAIL_IF_NO_PEER_CERT admits certificate-less clients; negotiated version >= context minimum; non-TLS peer => failure; key possession always checked)",
         "the certificate factory's files are what CertKind.props says (checked every run by the `certtable` line with libcrypto's own verifier)",
         "the system trust store is what SSL_CERT_FILE/SSL_CERT_DIR point to (the harness points them at an empty / chosen store)",
-        "SSL_set1_host / SSL_CTX_set_min_proto_version succeed for the names and versions of the matrix",
+        "SSL_set1_host succeeds for the names of the matrix; SSL_CTX_set_min_proto_version behaves as libSetMin (0 clears, SSL3..TLS1.3 set, anything else changes nothing) - "
+        "checked by reading the effective minimum back (SSL_CTX_get_min_proto_version) in the interposer",
     ]
     return ctx.finish(level="proof", rule="a case = one matrix cell (one real handshake attempt of a freshly built Transport/HttpClient/HttpServer); distinct = distinct "
                       "cell lines; non-trivial = the cell reached TLS set-up or a refusal (i.e. not a plain session)")
